@@ -807,10 +807,23 @@ class TableRow(BlockToken):
     split_pattern = re.compile(r"(?<!\\)\|")
     escaped_pipe_pattern = re.compile(r"(?<!\\)(\\\\)*\\\|")
 
+    @classmethod
+    def split_cells(cls, line):
+        """
+        Splits a table row into its cells. The pipes at the beginning and at the end
+        of the row are no cell boundaries; an empty cell between two pipes is a cell.
+        """
+        line = line.strip()
+        if line.startswith('|'):
+            line = line[1:]
+        if line.endswith('|') and not line.endswith('\\|'):
+            line = line[:-1]
+        return cls.split_pattern.split(line)
+
     def __init__(self, line, row_align=None, line_number=None):
         self.row_align = row_align or [None]
         self.line_number = line_number
-        cells = filter(None, self.split_pattern.split(line.strip()))
+        cells = self.split_cells(line)
         self.children = [TableCell(self.escaped_pipe_pattern.sub('\\1|', cell.strip()) if cell else '', align, line_number)
                          for cell, align in zip_longest(cells, self.row_align)]
 
